@@ -94,6 +94,12 @@ let pcall s = match next s with
   | 2 -> let v = nextn s in let i = next s = 1 in CFilter (v, i)
   | _ -> CSort (nlist s)
 
+let levent s = match next s with
+  | 0 -> let l = lit s in let lv = nextn s in let r = nextn s in LAssign (l, lv, r)
+  | 1 -> LUndoLast
+  | 2 -> LUndoUntil (nextn s)
+  | _ -> LSoft
+
 let b x = if x then "1" else "0"
 let plist l = String.concat " " (List.map (fun x -> string_of_int (int_of_n x)) l)
 let polist = function None -> "none" | Some l -> "some " ^ plist l
@@ -203,6 +209,11 @@ let () =
                       (b norepeat) (List.length st2.e_db) (List.length st2.e_calls)
                   | None -> "0 0 0 0 0 0 0 0 -1 -1")
                | None -> "0 0 0 0 0 0 0 0 -2 -2")
+            | "analyses" ->
+              (* db levents -> number-of-analyses all-equal-to-the-model *)
+              let db = rep s clause in let evs = rep s levent in
+              let (n, ok) = check_analyses db evs in
+              Printf.sprintf "%d %s" (int_of_n n) (b ok)
             | "logsat" ->
               (* U P log sol -> db-ok run-ok sat-ok [first bad clause index | -] *)
               let u = universe s in let p = problem s in let lg = log s in let sol = nlist s in
